@@ -98,18 +98,18 @@ func scenUnflushedAck(e *engineA) error {
 	// crash l at the first append that follows its first successful append reply
 	var armed int32 = 1
 	ldir := l.dir
-	e.rc.onNodeEvent = func(dir string, r *ev.Rec) {
+	e.rc.setOnNodeEvent(func(dir string, r *ev.Rec) {
 		if dir == ldir && r.K == "rpc" && r.RPC == "append" && r.Res == "success" && atomic.CompareAndSwapInt32(&armed, 1, 0) {
 			e.pc.planCrash(dir, "append", 1)
 		}
-	}
+	})
 	e.rc.emit(&ev.Rec{K: "fault", Op: "heal-and-crash-after-first-ack", Nid: l.nid, ID: nl.nid})
 	for _, f := range fs {
 		e.net.Cut(f.label, l.label, false)
 		e.net.Release(f.label, l.label, true)
 	}
 	e.waitFor(40, func() bool { return l.isCrashed() })
-	e.rc.onNodeEvent = nil
+	e.rc.setOnNodeEvent(nil)
 	e.sleepHB(1, 3)
 	e.cl.recoverCrashed()
 	e.startClients(2, map[string]int{"update": 1})
@@ -256,7 +256,7 @@ func scenDoubleFailedLeadership(e *engineA) error {
 	// the next node that becomes leader is cut off before it can send anything
 	var w *Node
 	var wset int32
-	e.rc.onNodeEvent = func(dir string, r *ev.Rec) {
+	e.rc.setOnNodeEvent(func(dir string, r *ev.Rec) {
 		if r.K == "state" && r.St != nil && r.St.State == "L" && dir != g.dir && atomic.CompareAndSwapInt32(&wset, 0, 1) {
 			for _, n := range e.cl.liveNodes() {
 				if n.dir == dir {
@@ -272,17 +272,17 @@ func scenDoubleFailedLeadership(e *engineA) error {
 				}
 			}
 		}
-	}
+	})
 	e.rc.emit(&ev.Rec{K: "fault", Op: "isolate-leader-g", Nid: g.nid})
 	e.isolate(g, true)
 	for i := 0; i < 1+e.rng.Intn(3); i++ {
 		go e.cl.fsmOp(2, g, "update") // entries only g ever sees
 	}
 	if !e.waitFor(100, func() bool { return atomic.LoadInt32(&wset) == 1 }) {
-		e.rc.onNodeEvent = nil
+		e.rc.setOnNodeEvent(nil)
 		return fmt.Errorf("no second leader")
 	}
-	e.rc.onNodeEvent = nil
+	e.rc.setOnNodeEvent(nil)
 	if w == nil {
 		return fmt.Errorf("second leader not found")
 	}
@@ -954,7 +954,7 @@ func scenTransferFaults(e *engineA) error {
 			var armed int32 = 1
 			tdir, tl, ll := t.dir, t.label, l.label
 			peers := e.cl.liveNodes()
-			e.rc.onNodeEvent = func(dir string, r *ev.Rec) {
+			e.rc.setOnNodeEvent(func(dir string, r *ev.Rec) {
 				if dir == tdir && r.K == "rpc" && r.RPC == "timeoutNow" && atomic.CompareAndSwapInt32(&armed, 1, 0) {
 					e.net.StallAt(tl, ll, e.net.WriteSeq(tl, ll)+2)
 					for _, o := range peers {
@@ -963,11 +963,11 @@ func scenTransferFaults(e *engineA) error {
 						}
 					}
 				}
-			}
+			})
 			extra := time.Duration(e.rng.Intn(200)) * time.Millisecond
 			go func(t *Node) {
 				time.Sleep(500*time.Millisecond + extra)
-				e.rc.onNodeEvent = nil
+				e.rc.setOnNodeEvent(nil)
 				for _, o := range peers {
 					if o != t {
 						e.net.StallAt(t.label, o.label, 0)
@@ -1154,7 +1154,7 @@ func scenStaleQueueReelection(e *engineA) error {
 	// elected: its entry at k will not be committed
 	var n, o *Node
 	var nset int32
-	e.rc.onNodeEvent = func(dir string, r *ev.Rec) {
+	e.rc.setOnNodeEvent(func(dir string, r *ev.Rec) {
 		if r.K == "state" && r.St != nil && r.St.State == "L" && dir != l.dir && atomic.CompareAndSwapInt32(&nset, 0, 1) {
 			for i, f := range fs {
 				if f.dir == dir {
@@ -1166,11 +1166,11 @@ func scenStaleQueueReelection(e *engineA) error {
 				e.net.Cut(o.label, n.label, true)
 			}
 		}
-	}
+	})
 	e.isolate(l, true)
 	go e.cl.fsmOp(2, l, "update") // exactly one: the re-elected leader's no-op must land right behind it
 	if !e.waitFor(100, func() bool { return atomic.LoadInt32(&nset) == 1 }) || n == nil {
-		e.rc.onNodeEvent = nil
+		e.rc.setOnNodeEvent(nil)
 		return fmt.Errorf("no second leader")
 	}
 	e.waitFor(40, func() bool {
@@ -1179,16 +1179,16 @@ func scenStaleQueueReelection(e *engineA) error {
 	})
 	// ... and the moment its entry at k reaches l, l is cut off from it again
 	var got int32
-	e.rc.onNodeEvent = func(dir string, r *ev.Rec) {
+	e.rc.setOnNodeEvent(func(dir string, r *ev.Rec) {
 		if dir == l.dir && r.K == "append" && r.E != nil && r.E.Index >= k && r.St != nil && r.St.State == "F" && atomic.CompareAndSwapInt32(&got, 0, 1) {
 			e.net.Cut(n.label, l.label, true)
 			e.net.Cut(l.label, n.label, true)
 		}
-	}
+	})
 	e.rc.emit(&ev.Rec{K: "fault", Op: "heal-old-leader-to-new", Nid: l.nid, ID: n.nid})
 	e.cutBoth(l, n, false)
 	ok := e.waitFor(60, func() bool { return atomic.LoadInt32(&got) == 1 })
-	e.rc.onNodeEvent = nil
+	e.rc.setOnNodeEvent(nil)
 	if !ok {
 		return fmt.Errorf("new leader's entry never reached the old leader")
 	}
